@@ -100,3 +100,10 @@ Theorem C03_statement_iff : forall O P fmt st adr cdj ad att,
   verify_statement O P fmt st adr cdj ad att = Ok tt <-> StatementRules O P fmt st adr cdj ad att.
 Proof. exact verify_statement_iff. Qed.
 Print Assumptions C03_statement_iff.
+
+(* non-vacuity: a real packed self-attestation statement (kernel-evaluated) is accepted and meets the rules;
+   with one bit of the authenticator data flipped it is refused *)
+From PW Require Import Proofs.Examples2.
+Example C03_nonvacuous : verify_packed px_oracles 0 px_stmt px_ad px_cdj px_key [] = Ok tt /\ PackedOk px_oracles 0 px_stmt px_ad px_cdj px_key [].
+Proof. split; [exact packed_example_statement|exact packed_example_meets_the_rules]. Qed.
+Print Assumptions C03_nonvacuous.
